@@ -8,6 +8,11 @@ import itertools
 import random
 
 
+def lit_char(l):
+    """the character a literal token denotes: yaccgo spells the quote character as '\\' (three characters)"""
+    return "'" if l == "'\\'" else l[1]
+
+
 def sym_text(s):
     """rhs symbol as written in the file: names as is, literals quoted"""
     return s
@@ -64,7 +69,7 @@ def group_rules(rules):
 
 
 def rand_grammar(rng, max_t=5, max_n=5, max_alt=3, max_len=4, p_prec=0.5, p_lit=0.2,
-                 p_nullable=None, p_rule_prec=0.15, big=False, p_chain=0.25):
+                 p_nullable=None, p_rule_prec=0.15, big=False, p_chain=0.25, p_split=0.2, p_case=0.1):
     nT = rng.randint(1, max_t)
     nN = rng.randint(1, max_n)
     if big:
@@ -72,7 +77,7 @@ def rand_grammar(rng, max_t=5, max_n=5, max_alt=3, max_len=4, p_prec=0.5, p_lit=
         nN = rng.randint(6, 14)
     tokens = []
     lits = []
-    litchars = list("+-*/()=<>!&^~,.#@%\"")
+    litchars = list("+-*/()=<>!&^~,.#@%\"aetoz$")   # incl. the letters of yaccgo's internal literal prefix `$operator`
     rng.shuffle(litchars)
     for i in range(nT):
         if rng.random() < p_lit and len(lits) < len(litchars):
@@ -124,6 +129,21 @@ def rand_grammar(rng, max_t=5, max_n=5, max_alt=3, max_len=4, p_prec=0.5, p_lit=
     for r in rules:
         if r["prec"] is not None and r["prec"] not in declared:
             r["prec"] = None
+    # the alternatives of one nonterminal need not be adjacent in the file (`y : B ; x : y ; y : C y ;`)
+    if len(rules) > 2 and rng.random() < p_split:
+        for _ in range(rng.randint(1, 2)):
+            r = rules.pop(rng.randrange(len(rules)))
+            rules.insert(rng.randint(0, len(rules)), r)
+    # names that differ only in letter case (a nonterminal `t1` next to the token `T1`)
+    if tokens and len(nts) > 1 and rng.random() < p_case:
+        old_nt = rng.choice(nts[1:])
+        new_nt = rng.choice(tokens).lower()
+        if new_nt not in nts:
+            nts = [new_nt if n == old_nt else n for n in nts]
+            for r in rules:
+                if r["lhs"] == old_nt:
+                    r["lhs"] = new_nt
+                r["rhs"] = [new_nt if x == old_nt else x for x in r["rhs"]]
     return {"tokens": tokens, "lits": lits, "prec": prec, "nts": nts, "start": "N0", "rules": rules}
 
 
@@ -215,6 +235,11 @@ CORPUS = {
     "layered_expr": "%token NUM\n%left '+' '-'\n%left '*' '/'\n%start E\n%%\nE : E '+' E | E '-' E | E '*' E | E '/' E | P ;\nP : Q | Q '!' ;\nQ : NUM | '(' E ')' ;\n%%\n",
     # mutual right recursion: a cycle of length 3 in the includes relation with different outside contexts
     "includes_ring": "%token X Y Z C M P Q T U V\n%start S\n%%\nS : U A P | V B Q | T C0 T ;\nA : X B | X ;\nB : Y C0 | Y C M ;\nC0 : Z A | C ;\n%%\n",
+    # one state's item list is a proper prefix of another's (A -> a.  vs  A -> a. , B -> a.b), both creation orders
+    "prefix_small_first": "%token X Y A B C D\n%start S\n%%\nS : X P | Y Q ;\nQ : P C | R D ;\nP : A ;\nR : A B ;\n%%\n",
+    "prefix_large_first": "%token X Y A B C D\n%start S\n%%\nS : Y Q | X P ;\nQ : P C | R D ;\nP : A ;\nR : A B ;\n%%\n",
+    # the alternatives of a nonterminal are not adjacent in the file
+    "split_alternatives": "%token A B C\n%start S\n%%\nS : X A ;\nY : B ;\nX : Y ;\nY : C Y ;\n%%\n",
     # NQLALR-separating family (Bermudez/Logothetis style)
     "nqlalr": "%token A B C D G\n%start S\n%%\nS : A X C | A Y D | B X D | B Y C | G X G ;\nX : Z ;\nY : Z ;\nZ : ;\n%%\n",
 }
@@ -385,8 +410,10 @@ def file_tokens(fs):
     add("%{" + fs["prologue"] + "%}", True)
     add("%union")
     add("{" + fs["union"] + "}", True)
+    # a directive word may be followed directly by anything that is not a letter (`%left'+'`, `%token<val>`);
+    # render_file/needs_sep keep a separator where the next token starts with a word character
     for t in fs["tokens"]:
-        add("%token")
+        add("%token", True)
         if t in fs["tags"]:
             add("<", True); add(fs["tags"][t], True); add(">", True)
         add(t)
@@ -394,12 +421,12 @@ def file_tokens(fs):
             add(str(fs["nums"][t]))
     for l in fs["lits"]:
         if l in fs["tags"]:
-            add("%token"); add("<", True); add(fs["tags"][l], True); add(">", True); add(l, True)
+            add("%token", True); add("<", True); add(fs["tags"][l], True); add(">", True); add(l, True)
     for n in fs["nts"]:
         if n in fs["tags"]:
-            add("%type"); add("<", True); add(fs["tags"][n], True); add(">", True); add(n)
+            add("%type", True); add("<", True); add(fs["tags"][n], True); add(">", True); add(n)
     for kind, syms in fs["prec"]:
-        add("%" + kind)
+        add("%" + kind, True)
         for s in syms:
             add(s, s.startswith("'"))
     add("%start"); add(fs["start"])
@@ -416,7 +443,7 @@ def file_tokens(fs):
         for s in r["rhs"]:
             add(s, s.startswith("'"))
         if r.get("prec"):
-            add("%prec"); add(r["prec"], r["prec"].startswith("'"))
+            add("%prec", True); add(r["prec"], r["prec"].startswith("'"))
         if fs["actions"][i] is not None:
             add(fs["actions"][i], True)
     add(";", True)
